@@ -8,3 +8,5 @@ open Jomini.Props.C13
 #print axioms C13_from_binary_reencode_date
 #print axioms C13_no_overflow_from_binary
 #print axioms C13_no_overflow_to_binary
+#print axioms C13_fast_digit_parse
+#print axioms C13_fastpaths_agree
